@@ -165,6 +165,10 @@ def stepJ (srvMode : Bool) (j : J) (sc : List String × List String) : J :=
           else if !replyConforms w bytes k then
             if ret.startsWith "ok" then fail "C06-accepted-nonconforming-reply"
             else { j1 with clean := false, alive := !closing, n := j.n }
+          else if closing && bytes.length < exactReplyLen w bytes then
+            -- C08: the stream ends inside the reply (fewer bytes than the reply needs, then the peer closes): an error
+            if ret.startsWith "ok" then fail "C08-truncated-reply-accepted"
+            else { j1 with clean := false, alive := false, n := j.n }
           else if bytes.length != exactReplyLen w bytes || leVal ((bytes.drop 8).take 4) + 12 != bytes.length then
             -- conforming but with missing/extra bytes (size field or tail): recorded limit, not judged
             { j1 with clean := false, alive := !closing, n := n' }
